@@ -219,8 +219,8 @@ def run(ctx):
     quick = ctx.tier == "quick"
     cap = 300 if quick else 2000           # interleavings of a program of the corpus / the shared generator
     tcap = 800 if quick else 3000          # ... of the targeted generator (reference classes only above none_max)
-    none_max = 130 if quick else 2000      # unreduced run of the real checker only below that many interleavings
-    n_generic, n_target = (8, 44) if quick else (110, 260)
+    none_max = 130 if quick else 400       # unreduced run of the real checker only below that many interleavings
+    n_generic, n_target = (8, 44) if quick else (100, 200)
     n_dbg = 12 if quick else 10 ** 6       # second opinion (debug-optimality) on that many programs
     corpus = [l.strip() for l in open(os.path.join(ctx.pdir, "corpus.txt")) if l.strip() and not l.startswith("#")]
     klass_of = {}
